@@ -12,6 +12,7 @@ import VaxisModel.Lemmas.App
 import VaxisModel.Lemmas.AppText
 import VaxisModel.Props.C01Clip
 import VaxisModel.Lemmas.RenderSixel
+import VaxisModel.Lemmas.RenderCursor
 
 namespace VaxisModel.Lemmas.AppSys
 open VaxisModel.Model.Window VaxisModel.Model.Render VaxisModel.Model.App
@@ -407,5 +408,103 @@ theorem cursor_step (X : Ctx) (s : Sys) (hi : Inv X s) (hc : CursorAs s.t s.v.cu
     simp only [OpOk, hs, if_true] at hok
     simp only [sysStep, endFrame, hs, if_true]
     exact render_cursor X s hi hok hc
+
+/-! ### the cursor through size changes -/
+
+/-- Either the terminal shows the cursor as last rendered, or — after a size change, when the
+    terminal may have moved it — a refresh of a non-empty screen is pending and the cursor's
+    *visibility* is still as last rendered. -/
+def CurInv (s : Sys) : Prop :=
+  CursorAs s.t s.v.cursorLast ∨
+  (s.v.refresh = true ∧ 1 ≤ s.v.scr.cols ∧ 1 ≤ s.v.scr.rows ∧ (s.v.cursorLast.visible = false → s.t.cursorVisible = false))
+
+theorem cursorAs_hidden (t : Term) (c : CursorState) (h : CursorAs t c) (hv : c.visible = false) : t.cursorVisible = false := by
+  simpa [CursorAs, hv] using h
+
+/-- The refresh of a non-empty screen puts the cursor right whatever its position was. -/
+theorem render_cursor_fresh (X : Ctx) (s : Sys) (hi : Inv X s) (hcur : CursorIn s.v) (hr : s.v.refresh = true)
+    (hc1 : 1 ≤ s.v.scr.cols) (hr1 : 1 ≤ s.v.scr.rows) (hvis : s.v.cursorLast.visible = false → s.t.cursorVisible = false) :
+    CursorAs (run X.cw s.t (doRender X.cw X.caps X.I s.v).2) (doRender X.cw X.caps X.I s.v).1.cursorLast := by
+  obtain ⟨hcn, hrn, hlen, hrows⟩ := hi.wf
+  rw [doRender_eq]
+  simp only [VaxisModel.Lemmas.RenderClip.renderFrameC_eq]
+  apply VaxisModel.Lemmas.RenderCursor.cursor_nonempty X.cw X.cw
+    { frameOf X.caps X.I s.v with next := clipGrid X.cw (frameOf X.caps X.I s.v).next } s.t
+  · intro hv
+    have := hcur hv
+    rw [hi.ready.trows, hi.ready.tcols]
+    simp only [Int.toNat_of_nonneg hcn, Int.toNat_of_nonneg hrn]
+    exact this
+  · -- the body is not empty
+    cases hbuf : s.v.scr.buf with
+    | nil => rw [hbuf] at hlen; simp at hlen; omega
+    | cons r0 rest =>
+      have hr0 : r0.length = s.v.scr.cols.toNat := hrows r0 (by rw [hbuf]; simp)
+      cases hrow : r0 with
+      | nil => rw [hrow] at hr0; simp at hr0; omega
+      | cons c0 cs0 =>
+        have hll := hi.ready.llen
+        cases hlast : s.v.last with
+        | nil => rw [hlast] at hll; simp at hll; omega
+        | cons l0r lrest =>
+          have hl0 : l0r.length = s.v.scr.cols.toNat := hi.ready.lcols l0r (by rw [hlast]; simp)
+          cases hl0r : l0r with
+          | nil => rw [hl0r] at hl0; simp at hl0; omega
+          | cons l0 ls0 =>
+            apply VaxisModel.Lemmas.RenderCursor.renderBody_nonempty X.cw _ hr
+              (clipCell X.cw (cs0.length + 1) (X.I.cell c0)) (clipRow X.cw (cs0.map X.I.cell))
+              (clipGrid X.cw (X.I.grid rest)) l0 ls0 lrest
+            · simp [frameOf, Interp.grid, clipGrid, clipRow, hbuf, hrow]
+            · simp [frameOf, hlast, hl0r]
+            · rw [VaxisModel.Lemmas.RenderClip.clipCell_sixel]; rfl
+  · exact hvis
+
+/-- **The cursor clause through every step**, size changes included (to a non-empty screen). -/
+theorem cursor_step_all (X : Ctx) (s : Sys) (hi : Inv X s) (hc : CurInv s) (op : SysOp) (hok : OpOk X s op)
+    (hsz : ∀ cols rows g, op = .resize cols rows g → sameSize s.v cols rows = false → 1 ≤ cols ∧ 1 ≤ rows) :
+    CurInv (sysStep X s op) ∧
+    (isFrame s op = true → CursorAs (sysStep X s op).t (sysStep X s op).v.cursorLast) := by
+  have hrender : ∀ (s : Sys), Inv X s → CurInv s → CursorIn s.v →
+      CursorAs (run X.cw s.t (doRender X.cw X.caps X.I s.v).2) (doRender X.cw X.caps X.I s.v).1.cursorLast := by
+    intro s hi hc hcur
+    rcases hc with hc | ⟨h1, h2, h3, h4⟩
+    · exact render_cursor X s hi hcur hc
+    · exact render_cursor_fresh X s hi hcur h1 h2 h3 h4
+  cases op with
+  | draw d =>
+    have h1 : (draw X.lib X.rm s.v d).cursorLast = s.v.cursorLast := by cases d <;> rfl
+    have h2 : (draw X.lib X.rm s.v d).refresh = s.v.refresh := by cases d <;> rfl
+    have hd := applyPuts_dims (modelWrites X.lib X.rm d) s.v.scr
+    rw [← draw_scr] at hd
+    refine ⟨?_, fun h => by simp [isFrame] at h⟩
+    simp only [CurInv, sysStep, h1, h2, hd.1, hd.2]
+    exact hc
+  | render =>
+    have := hrender s hi hc hok
+    exact ⟨Or.inl this, fun _ => this⟩
+  | refresh =>
+    have hi' : Inv X { s with v := { s.v with refresh := true } } :=
+      ⟨hi.wf, hi.ready, fun h => absurd h (by simp), hi.cells⟩
+    have := hrender { s with v := { s.v with refresh := true } } hi'
+      (by rcases hc with hc | ⟨h1, h2, h3, h4⟩
+          · exact Or.inl hc
+          · exact Or.inr ⟨rfl, h2, h3, h4⟩) hok
+    exact ⟨Or.inl this, fun _ => this⟩
+  | resize cols rows g =>
+    by_cases hs : sameSize s.v cols rows = true
+    · simp only [OpOk, hs, if_true] at hok
+      have := hrender s hi hc hok
+      simp only [sysStep, endFrame, hs, if_true, isFrame]
+      exact ⟨Or.inl this, fun _ => this⟩
+    · have hs' : sameSize s.v cols rows = false := by simpa using hs
+      obtain ⟨hc1, hr1⟩ := hsz cols rows g rfl hs'
+      simp only [sysStep, endFrame, hs, if_false, isFrame, run, List.foldl_nil]
+      refine ⟨Or.inr ⟨rfl, by simp [Screen.resize]; omega, by simp [Screen.resize]; omega, ?_⟩, fun h => absurd h (by simp)⟩
+      intro hv
+      show (resizedTerm s.t cols rows g).cursorVisible = false
+      simp only [resizedTerm]
+      rcases hc with hc | ⟨_, _, _, h4⟩
+      · exact cursorAs_hidden s.t _ hc hv
+      · exact h4 hv
 
 end VaxisModel.Lemmas.AppSys
